@@ -2,6 +2,7 @@ import IGVerif.Model.Link
 import IGVerif.Model.Refs
 import IGVerif.Proofs.LinkSpec
 import IGVerif.Proofs.RefsDecode
+import IGVerif.Model.Tab
 /-! C05 — logical linkage cells name the right rows and the right operators. -/
 namespace IGVerif.C05
 open IGVerif IGVerif.Link IGVerif.Refs
@@ -76,6 +77,20 @@ theorem linkage_is_mutual (t lca ca cb : PNode) (pre : NPath) (a b : Nat) (p q :
     (range compression is lossless) -/
 theorem linkage_rows_lossless (ids : List Nat) (hs : ids.Pairwise (· < ·)) :
     Refs.decode (Refs.build ids) = ids.map (· + 1) := Refs.decode_build ids hs
+
+/-- **A linkage cell names exactly the rows carrying the alternative**: the compressed row list
+    written for an alternative of a component (`Tab.columnRefs`) denotes precisely the rows of
+    the table in which that alternative was chosen (1-based), for any number of rows -/
+theorem linkage_names_exactly_the_rows_of_the_alternative (rows : List (List LeafV)) (ci : Nat) (path : List Bool) :
+    Refs.decode (Refs.build ((List.range rows.length).filter fun ri =>
+      match rows[ri]? with
+      | some row => (match row[ci]? with | some v => v.path = path | none => false)
+      | none => false)) =
+    ((List.range rows.length).filter fun ri =>
+      match rows[ri]? with
+      | some row => (match row[ci]? with | some v => v.path = path | none => false)
+      | none => false).map (· + 1) :=
+  Refs.decode_build _ (List.Pairwise.filter _ List.pairwise_lt_range)
 
 /-- non-vacuity: `((a [AND] b) [OR] c)`, from `a` (path 0,0) to `c` (path 1) -/
 example :
